@@ -360,6 +360,7 @@ CHECKS["C09"] = dict(
         dict(harness="opaque", prop="opaque", cases=T(30000, 500000), procs=T(6, 10)),
         dict(harness="opaque", prop="opaque", cases=T(15000, 250000), procs=T(1, 2), env={"PIXMAN_DISABLE": "fast sse2 ssse3 mmx"}, tag="opaque_general"),
         dict(harness="opaque", prop="opaque", cases=T(15000, 250000), procs=T(1, 2), env={"PIXMAN_DISABLE": "sse2 ssse3"}, tag="opaque_mmx"),
+        dict(harness="opaque", prop="opaque", cases=T(15000, 250000), procs=T(1, 2), env={"PIXMAN_DISABLE": "mmx sse2 ssse3"}, tag="opaque_cfast"),
         # "treated as opaque only if every sample has alpha 1": solids with 16-bit alpha 0xff00..0xfffe vs the same colour as a
         # 1x1 repeating rgba_float image, as source or mask, on 10 bpc / sRGB / float destinations
         dict(harness="opaque", prop="nearopaque", cases=T(30000, 400000), procs=T(2, 4)),
